@@ -198,6 +198,14 @@ macro_rules! send_notify {
     }};
 }
 
+#[cfg(feature = "verif-hooks")]
+impl TxPoolController {
+    /// identity of the service behind this controller (shared by its clones)
+    pub(crate) fn verif_key(&self) -> usize {
+        Arc::as_ptr(&self.started) as usize
+    }
+}
+
 impl TxPoolController {
     /// Return whether tx-pool service is started
     pub fn service_started(&self) -> bool {
@@ -599,6 +607,9 @@ impl TxPoolServiceBuilder {
             consensus,
             fee_estimator: self.fee_estimator,
         };
+
+        #[cfg(feature = "verif-hooks")]
+        crate::verif_hooks::register_service(&self.tx_pool_controller, &service);
 
         let mut verify_mgr =
             VerifyMgr::new(service.clone(), self.chunk_rx, self.signal_receiver.clone());
